@@ -450,10 +450,11 @@ def render_dependencies(content: TContent, type: RenderType = "document") -> TCo
     css_replacement = css_dependencies if type == "document" else b""
     js_replacement = js_dependencies if type == "document" else b""
 
-    def on_replace_match(match: "re.Match[bytes]") -> bytes:
-        nonlocal did_find_css_placeholder
-        nonlocal did_find_js_placeholder
-
+    # NOTE: All positions are those of the document as we were given it (minus the component markers). We first
+    #       collect what goes where, and only then insert. So the content we insert (e.g. component's JS that contains
+    #       the text `</head>`, or the text of a placeholder) is never taken for a part of the document.
+    edits: List[Tuple[int, int, bytes]] = []  # (start, end, replacement)
+    for match in PLACEHOLDER_REGEX.finditer(content_):
         if CSS_PLACEHOLDER_NAME_B in match[0]:
             replacement = css_replacement
             did_find_css_placeholder = True
@@ -465,23 +466,26 @@ def render_dependencies(content: TContent, type: RenderType = "document") -> TCo
                 "Unexpected error: Regex for component dependencies processing"
                 f" matched unknown string '{match[0].decode()}'"
             )
-        return replacement
-
-    content_ = PLACEHOLDER_REGEX.sub(on_replace_match, content_)
+        edits.append((match.start(), match.end(), replacement))
 
     # By default, if user didn't specify any `{% component_dependencies %}`,
     # then try to insert the JS scripts at the end of <body> and CSS sheets at the end
     # of <head>
     if type == "document" and (not did_find_js_placeholder or not did_find_css_placeholder):
         # NOTE: We work with bytes, so that content in encodings other than UTF-8 passes through unchanged.
-        maybe_transformed = _insert_js_css_to_default_locations(
+        css_index, js_index = _find_default_locations(
             content_,
-            css_content=None if did_find_css_placeholder else css_dependencies,
-            js_content=None if did_find_js_placeholder else js_dependencies,
+            find_css=not did_find_css_placeholder,
+            find_js=not did_find_js_placeholder,
         )
+        if css_index is not None:
+            edits.append((css_index, css_index, css_dependencies))
+        if js_index is not None:
+            edits.append((js_index, js_index, js_dependencies))
 
-        if maybe_transformed is not None:
-            content_ = maybe_transformed
+    # Apply from the end of the document, so that the positions found above remain valid
+    for start, end, replacement in sorted(edits, key=lambda edit: edit[0], reverse=True):
+        content_ = content_[:start] + replacement + content_[end:]
 
     # In case of a fragment, we only append the JS (actually JSON) to trigger the call of dependency-manager
     if type == "fragment":
@@ -901,63 +905,42 @@ def _gen_exec_script(
 head_or_body_end_tag_re = re.compile(rb"<\/(?:head|body)\s*>", re.DOTALL)
 
 
-def _insert_js_css_to_default_locations(
+def _find_default_locations(
     html_content: bytes,
-    js_content: Optional[bytes],
-    css_content: Optional[bytes],
-) -> Optional[bytes]:
+    find_css: bool,
+    find_js: bool,
+) -> Tuple[Optional[int], Optional[int]]:
     """
-    This function tries to insert the JS and CSS content into the default locations.
+    This function finds the default locations for the JS and CSS content.
 
     JS is inserted at the end of `<body>`, and CSS is inserted at the end of `<head>`.
 
     We find these tags by looking for the first `</head>` and last `</body>` tags.
+    Returns the positions of these two tags (`None` if not searched for or not found).
     """
-    if css_content is None and js_content is None:
-        return None
-
-    did_modify_html = False
-
     first_end_head_tag_index = None
     last_end_body_tag_index = None
 
-    # First check the content for the first `</head>` and last `</body>` tags
+    if not find_css and not find_js:
+        return None, None
+
     for match in head_or_body_end_tag_re.finditer(html_content):
         tag_name = match[0][2:6]
 
         # We target the first `</head>`, thus, after we set it, we skip the rest
         if tag_name == b"head":
-            if css_content is not None and first_end_head_tag_index is None:
+            if find_css and first_end_head_tag_index is None:
                 first_end_head_tag_index = match.start()
 
-        # But for `</body>`, we want the last occurrence, so we insert the content only
-        # after the loop.
+        # But for `</body>`, we want the last occurrence
         elif tag_name == b"body":
-            if js_content is not None:
+            if find_js:
                 last_end_body_tag_index = match.start()
 
         else:
             raise ValueError(f"Unexpected tag name '{tag_name}'")
 
-    # Then do two string insertions. First the CSS. The inserted CSS shifts the position of `</body>`
-    # only if that `</body>` comes after the `</head>` (we cannot assume that <head> is before <body>).
-    index_offset = 0
-    updated_html = html_content
-    if css_content is not None and first_end_head_tag_index is not None:
-        updated_html = updated_html[:first_end_head_tag_index] + css_content + updated_html[first_end_head_tag_index:]
-        if last_end_body_tag_index is not None and last_end_body_tag_index > first_end_head_tag_index:
-            index_offset = len(css_content)
-        did_modify_html = True
-
-    if js_content is not None and last_end_body_tag_index is not None:
-        js_index = last_end_body_tag_index + index_offset
-        updated_html = updated_html[:js_index] + js_content + updated_html[js_index:]
-        did_modify_html = True
-
-    if did_modify_html:
-        return updated_html
-    else:
-        return None  # No changes made
+    return first_end_head_tag_index, last_end_body_tag_index
 
 
 #########################################################
